@@ -74,6 +74,15 @@ Proof.
   - destruct cx_go_line as (ws & E & _). rewrite E. discriminate.
 Qed.
 
+Example cx_all :
+  pos_ok p14 /\ reserves_match_board p14 /\ live p14 /\
+  position_line p14 = str "position tps 2,x3,1/x4,1C/x4,2S/x4,22221/2,x4 1 8" /\
+  (let eng := tei_proc gen_basis unit cx_mk cx_search in
+   exists c1 g, new_game (proc unit) eng cx_c0 (Z.of_N (Move.size p14)) = (c1, ROk g) /\
+   exists c2 m, tei_get_move (proc unit) eng c1 g p14 (Some cx_dl) (Some cx_tc) = (c2, ROk m) /\
+     legal gen_basis p14 (to_rmove m) /\ in_sync unit c2 /\ e_pos (p_eng (c_es c2)) = Some p14).
+Proof. exact (conj cx_pos_ok (conj cx_reserves (conj cx_live (conj cx_position_line cx_theorem)))). Qed.
+
 (* the two panics of the client model are real (confirmed on the Go code by the C17 check, families answers / dead-player):
    an engine that prints an empty line before its bestmove, and a player of an earlier game *)
 Definition cx_blank_eng (k : nat) (line : list N) : option (eresp nat) :=
